@@ -64,6 +64,8 @@ FUZZ = False
 def attribute(v):
     """Which property a recorded deviation belongs to (None = latent/structural, not a verdict)."""
     p = attribute32(v)
+    if BITS64 and v['op'] in ('Decode', 'Ser64', 'Load64'):
+        return 'C18'
     if FUZZ and p is not None and p not in ('C09', 'C14', 'C07', 'C08'):
         return 'C10'   # in the untrusted-bytes traces every judgement about the adopted bitmap is C10's "genuine set" clause
     if BITS64 and p is not None and p != 'C18':
@@ -72,8 +74,16 @@ def attribute(v):
     return p
 
 
+BSI_UPDATE = {'BNew', 'BSetValue', 'BSetMany', 'BClear', 'BRetain', 'BParOr', 'BAdd', 'BIncrement', 'BClone', 'BRetainSet',
+              'BMarshalRT', 'BStreamRT', 'BRunOptimize'}
+
+
 def attribute32(v):
     c, op = v['clause'], v['op']
+    if op.startswith('B') and op[1:2].isupper():
+        if c in ('map', 'interference', 'read-api-inconsistent', 'cardinality', 'plane-outside-existence'):
+            return 'C19' if op in BSI_UPDATE else 'C20'   # a query that changes the stored map breaks C20's independence clause
+        return 'C19' if op in BSI_UPDATE else 'C20'
     if c in ('content', 'result', 'panic', 'listing', 'not-a-union-of-atoms', 'aux', 'cardinality-mismatch', 'isempty-mismatch'):
         if op in SER:
             return serial_family(v)
@@ -112,6 +122,11 @@ def signature(prop, v):
         sig['detail'] = d
     if v['clause'] == 'result' and isinstance(d, list):
         sig['detail'] = ','.join(sorted(str(x) for x in d))
+    if v['op'].startswith('B') and isinstance(d, dict) and 'exp' in d:
+        sig['negative_values'] = any(x < 0 for x in d['exp'].get('v', []))
+    if v['op'].startswith('B') and isinstance(d, dict) and 'clauses' in d:
+        sig['detail'] = ','.join(sorted(d['clauses']))
+        sig['negative_values'] = bool(d.get('neg'))
     return sig
 
 
@@ -129,6 +144,8 @@ REQUIRED_OPS = {
     'C13': ['Freeze', 'FrozenRT'],
     'C08': ['Load', 'FrozenRT', 'DetachAll', 'Scribble'],
     'C04': ['ItNew', 'ItTake', 'ItPeek', 'ItAdvance', 'IterCb', 'Ranges'],
+    'C19': ['BSetValue', 'BSetMany', 'BClear', 'BRetain', 'BParOr', 'BAdd', 'BIncrement', 'BClone', 'BRetainSet', 'BMarshalRT', 'BStreamRT'],
+    'C20': ['BCompare', 'BCompareBSI', 'BBatchEqual', 'BBatchEqualValues', 'BMinMax', 'BSum', 'BTranspose', 'BTransposeCounts'],
 }
 
 
@@ -186,6 +203,7 @@ def c02(tier):
             {'kind': 'replay', 'model': M('hist_S7', 'hist', 'S7', depth=12, sim={'num': 300 if q else 6000, 'depth': 13, 'seed': 7}),
              'kinds': ALLKINDS[:8], 'sample': 0.25 if q else 0.5},
             {'kind': 'drive', 'profile': 'history', 'traces': 160 if q else 3000, 'steps': 50},
+            {'kind': 'drive', 'profile': 'burst', 'traces': 100 if q else 2000, 'steps': 0},
             {'kind': 'replay', 'model': M('cow_S6', 'cow', 'S6', depth=8, sim={'num': 1500 if q else 30000, 'depth': 10, 'seed': 5}),
              'kinds': ['chunky', 'keyspread', 'chunky', 'threshold'], 'sample': 0.1 if q else 0.4, 'extra': ['-keeprcp']},
         ],
@@ -268,6 +286,7 @@ def c09(tier):
         'assumptions': ASSUME_SET,
         'phases': [
             {'kind': 'drive', 'profile': 'all', 'traces': 200 if q else 4000, 'steps': 80},
+            {'kind': 'drive', 'profile': 'burst', 'traces': 160 if q else 3000, 'steps': 0},
         ],
     }
 
@@ -279,6 +298,7 @@ def c14(tier):
         'assumptions': ASSUME_SET,
         'phases': [
             {'kind': 'drive', 'profile': 'all', 'traces': 200 if q else 4000, 'steps': 80, 'extra': []},
+            {'kind': 'drive', 'profile': 'burst', 'traces': 240 if q else 4000, 'steps': 0},
         ],
     }
 
@@ -417,6 +437,7 @@ def c18(tier):
         'assumptions': ASSUME_SET,
         'phases': [
             {'kind': 'drive', 'profile': 'serial64', 'traces': 160 if q else 3000, 'steps': 40, 'extra': B},
+            {'kind': 'drive', 'cmd': 'fuzzdec64', 'profile': 'fuzz64', 'traces': 240 if q else 6000, 'steps': 0, 'shards': 12},
         ],
     }
 
@@ -447,4 +468,32 @@ def c10(tier):
     }
 
 
-PLANS = {'C04': c04, 'C10': c10, 'C12': c12, 'C17': c17, 'C18': c18, 'C05': c05, 'C06': c06, 'C13': c13, 'C08': c08, 'C01': c01, 'C02': c02, 'C03': c03, 'C15': c15, 'C11': c11, 'C16': c16, 'C07': c07, 'C09': c09, 'C14': c14}
+def c19(tier):
+    q = tier == 'quick'
+    return {
+        'rule': 'BSI.tla: both BSI implementations as a partial map column -> integer; random histories of SetValue/SetBigValue, SetMany, ClearValues, Retain, ParOr on disjoint columns, Add/Increment on non-negative values, Clone, NewBSIRetainSet, MarshalBinary and WriteTo round trips over 6 columns spread over chunks/buckets, abstract values -8..7 scaled by 2^k (k in 0..55, and 70 through the big-value API), auto-sized and fixed-width indexes; after EVERY call the map read back through GetValue/GetBigValue/GetValues/ValueExists/GetCardinality is compared with the specified map by TLC (TraceBSI.tla), plane-within-existence checked on the raw planes',
+        'assumptions': ['values and comparison constants stay inside the range the index was created or auto-sized for (DESIGN 8.0)',
+                        'ParOr operands have pairwise disjoint column sets; Add/Increment only on non-negative values; Increment only when values are unscaled',
+                        'the harness scaling/unscaling of values by 2^k is exact (math/big)'],
+        'trace_module': 'TraceBSI.tla', 'trace_cfg': 'TraceBSI.cfg',
+        'phases': [
+            {'kind': 'drive', 'cmd': 'bsi', 'profile': 'update', 'traces': 600 if q else 12000, 'steps': 40, 'shards': 12},
+        ],
+    }
+
+
+def c20(tier):
+    q = tier == 'quick'
+    return {
+        'rule': 'BSI.tla query clauses: CompareValue/CompareBigValue (LT LE EQ GE GT RANGE) with found-sets nil / subsets of existing columns / the index own existence bitmap, CompareBSI, BatchEqual/BatchEqualBig/BatchEqualValues (incl. duplicate and cube value lists), MinMax/MinMaxBig, Sum/SumBigValues, Transpose/IntersectAndTranspose, TransposeWithCounts, worker counts 0,1,2,3,16, on stored maps with mixed signs produced by random update histories; every result is compared by TLC with the predicate evaluated on the specified map; each query is issued twice and must answer the same (ResultIndependent), and the stored map must be unchanged by queries',
+        'assumptions': ['comparison constants lie inside the hull of the stored values for auto-sized indexes and inside the declared bounds for fixed-width ones',
+                        'Transpose* only on non-negative values (values become column ids); TransposeWithCounts (64-bit) is given an explicit filter set',
+                        'found sets contain existing columns only'],
+        'trace_module': 'TraceBSI.tla', 'trace_cfg': 'TraceBSI.cfg',
+        'phases': [
+            {'kind': 'drive', 'cmd': 'bsi', 'profile': 'query', 'traces': 600 if q else 12000, 'steps': 40, 'shards': 12},
+        ],
+    }
+
+
+PLANS = {'C19': c19, 'C20': c20, 'C04': c04, 'C10': c10, 'C12': c12, 'C17': c17, 'C18': c18, 'C05': c05, 'C06': c06, 'C13': c13, 'C08': c08, 'C01': c01, 'C02': c02, 'C03': c03, 'C15': c15, 'C11': c11, 'C16': c16, 'C07': c07, 'C09': c09, 'C14': c14}
